@@ -21,6 +21,55 @@ type Effect struct {
 	Call   *ast.CallExpr
 	// Accumulates is false when the receiver is not also the first operand (x.Add(y, amt)).
 	Accumulates bool
+	// Exclusive is set when the effect is only reached if another role test failed
+	// (else-branch of `x == p.Source`, or one case of a switch over the roles): a posting
+	// whose source and destination coincide then updates one side only.
+	Exclusive bool
+}
+
+// roleExclusive reports whether pos sits in a branch that excludes another role selection.
+func roleExclusive(info *types.Info, body *ast.BlockStmt, pos token.Pos) bool {
+	for _, f := range astx.FactsAt(info, body, pos) {
+		be, ok := ast.Unparen(f.Cond).(*ast.BinaryExpr)
+		if !ok || f.Positive || be.Op != token.EQL {
+			continue
+		}
+		l, r := roleOfExpr(be.X), roleOfExpr(be.Y)
+		if (l != "") != (r != "") {
+			return true // reached only when `x == p.<role>` was false
+		}
+	}
+	excl := false
+	ast.Inspect(body, func(n ast.Node) bool {
+		sw, ok := n.(*ast.SwitchStmt)
+		if !ok || !(sw.Pos() <= pos && pos < sw.End()) {
+			return true
+		}
+		roleClauses, mine := 0, false
+		for _, cl := range sw.Body.List {
+			cc := cl.(*ast.CaseClause)
+			isRole := false
+			for _, e := range cc.List {
+				if roleOfExpr(e) != "" {
+					isRole = true
+				}
+				if be, ok := ast.Unparen(e).(*ast.BinaryExpr); ok && be.Op == token.EQL && ((roleOfExpr(be.X) != "") != (roleOfExpr(be.Y) != "")) {
+					isRole = true
+				}
+			}
+			if isRole {
+				roleClauses++
+				if cc.Pos() <= pos && pos < cc.End() {
+					mine = true
+				}
+			}
+		}
+		if roleClauses >= 2 && mine {
+			excl = true
+		}
+		return true
+	})
+	return excl
 }
 
 func (e Effect) Sig() string {
@@ -170,6 +219,7 @@ func amountEffects(info *types.Info, body *ast.BlockStmt) []Effect {
 			if e.Role == "" {
 				e.Role = "?"
 			}
+			e.Exclusive = roleExclusive(info, body, call.Pos())
 			out = append(out, e)
 		case (f.Name() == "AddInput" || f.Name() == "AddOutput") && len(call.Args) == 3:
 			sig, _ := f.Type().(*types.Signature)
@@ -180,6 +230,7 @@ func amountEffects(info *types.Info, body *ast.BlockStmt) []Effect {
 			if e.Role == "" {
 				e.Role = "?"
 			}
+			e.Exclusive = roleExclusive(info, body, call.Pos())
 			out = append(out, e)
 		}
 		return true
